@@ -14,8 +14,11 @@
 (* every logged result: for single-section calls this is a linearization   *)
 (* of the history; for sequential histories it is a plain replay.  Every   *)
 (* TypeContext invariant is evaluated in every state on the way.           *)
-(* The trace is accepted iff some behaviour consumes all of it (the        *)
-(* high-water mark kept with TLCSet equals Len(Trace)).                    *)
+(* The trace is accepted iff some behaviour consumes all of it: TLC stops   *)
+(* at the first such behaviour ("invariant" NotDone violated).  Otherwise   *)
+(* the search is exhausted and the POSTCONDITION prints the high-water mark *)
+(* kept with TLCSet, which names the first history that is not a behaviour  *)
+(* of the spec.                                                             *)
 (***************************************************************************)
 EXTENDS TypeContext
 
@@ -111,5 +114,10 @@ TView == <<cx, prog, stk, cur, ldefs, racy, live, taint, l, done, res>>
 \* Acceptance: some behaviour consumed the whole trace.  The mark reached is
 \* printed so that the harness can name the first history that is not a
 \* behaviour of the spec.
+\* Checked as an "invariant": its violation is the acceptance of the trace and
+\* stops TLC at the first complete behaviour instead of enumerating all of them.
+NotDone == l < Len(Trace)
+
+\* Reached only when no behaviour consumed the whole trace.
 Accepted == PrintT(<<"HW", TLCGet(1), Len(Trace)>>) /\ TLCGet(1) = Len(Trace)
 =============================================================================
